@@ -9,6 +9,7 @@ require (
 	github.com/smartcontractkit/chainlink-common v0.4.2-0.20250130202959-6f1f48342e36
 	github.com/smartcontractkit/chainlink-data-streams v0.0.0
 	github.com/smartcontractkit/libocr v0.0.0-20250220133800-f3b940c4f298
+	google.golang.org/grpc v1.70.0
 	google.golang.org/protobuf v1.36.6
 )
 
@@ -50,7 +51,6 @@ require (
 	golang.org/x/exp v0.0.0-20250218142911-aa4b98e5adaa // indirect
 	golang.org/x/sync v0.11.0 // indirect
 	golang.org/x/sys v0.30.0 // indirect
-	google.golang.org/grpc v1.70.0 // indirect
 	rsc.io/tmplfunc v0.0.3 // indirect
 )
 
